@@ -32,7 +32,7 @@ func init() {
 	register(&c15{base{
 		id:    "C15",
 		level: lvlExploration,
-		rule: "reference writers produce otherwise valid, fully repairable PAR1/PAR2 archives in which ONE declared file name comes from a corpus of traversal spellings (.., ../x, a/../../x, ./../x, absolute paths into a canary tree, '.', empty, trailing and doubled slashes, backslash variants, embedded NUL, 300-byte names, dot-prefixed names, deep a/b/../../../x forms, Unicode look-alikes for PAR1) and that file is 'missing' while enough recovery data exists to rebuild it; the archive directory sits inside a canary tree (parent with decoy files at every traversal target, sibling directories, an absolute-path target). Verify and Repair run through the library (snapshot of the whole tree before/after) and through the built par binary under strace (every successful create/write/unlink/rename/mkdir event). Any event or snapshot difference outside the index file's directory tree (PAR1: outside that directory itself) is a violation. Create mode: par2.Create must refuse inputs outside the index directory. A key is (format, name, position in the set, mode, target pre-exists?)",
+		rule: "reference writers produce otherwise valid, fully repairable PAR1/PAR2 archives in which ONE declared file name comes from a corpus of traversal spellings (.., ../x, a/../../x, ./../x, absolute paths into a canary tree, '.', empty, trailing and doubled slashes, backslash variants, embedded NUL, 300-byte names, dot-prefixed names, deep a/b/../../../x forms, Unicode look-alikes for PAR1) and that file is 'missing' while enough recovery data exists to rebuild it; the archive directory sits inside a canary tree (parent with decoy files at every traversal target, sibling directories, an absolute-path target). the hostile name is carried by the file description packet or, for a third of the PAR2 cases, by an optional Unicode Filename packet attached to a benignly named file; Verify and Repair run through the library (snapshot of the whole tree before/after; absolute index path, and bare index name with the archive directory as current directory) and through the built par binary under strace (every successful create/write/unlink/rename/mkdir event). Any event or snapshot difference outside the index file's directory tree (PAR1: outside that directory itself) is a violation. Create mode: par2.Create must refuse inputs outside the index directory. A key is (format, name, position in the set, mode, target pre-exists?)",
 		assumptions: append([]string{"on Linux a backslash is an ordinary file-name character; names are judged by where the operating system actually resolves them"}, commonAssumptions...),
 		opts:        core.WorkerOpts{CrashIsViolation: true, WallSeconds: 2400},
 	}})
@@ -66,6 +66,11 @@ func (c *c15) Cases(tier string, seed int64) []core.Case {
 				cs = append(cs, core.MkCase(fmt.Sprintf("%s-lib-%q-%d", f, trunc2(n, 30), k), c15Params{r.Int63(), f, n, "lib"}))
 			}
 			cs = append(cs, core.MkCase(fmt.Sprintf("%s-cli-%q", f, trunc2(n, 30)), c15Params{r.Int63(), f, n, "cli"}))
+			if strings.HasPrefix(n, "@ABS@") || strings.HasPrefix(n, "/") || strings.HasPrefix(n, "..") || strings.Contains(n, "../") {
+				// bare index name, current directory = archive directory
+				cs = append(cs, core.MkCase(fmt.Sprintf("%s-lib-bare-%q", f, trunc2(n, 30)), c15Params{r.Int63(), f, n, "lib-bare"}))
+				cs = append(cs, core.MkCase(fmt.Sprintf("%s-cli-bare-%q", f, trunc2(n, 30)), c15Params{r.Int63(), f, n, "cli-bare"}))
+			}
 		}
 	}
 	for k := 0; k < 6*reps; k++ {
@@ -136,10 +141,33 @@ func (c *c15) Run(cs core.Case) core.Result {
 			in = append(in, f)
 			os.WriteFile(filepath.Join(t.arch, f.Name), f.Data, 0644)
 		}
+		useUni := p.Seed%3 == 1
+		if useUni {
+			// the hostile name travels in the optional Unicode Filename packet;
+			// the file description itself is benign
+			in[pos].Name = "benign-missing.bin"
+		}
 		rs := par2rw.BuildSet(16, in)
+		var uniPackets []par2rw.Packet
+		if useUni {
+			for _, rf := range rs.Files {
+				if rf.Name == "benign-missing.bin" {
+					var t [16]byte
+					copy(t[:], "PAR 2.0\x00UniFileN")
+					body := append([]byte(nil), rf.ID[:]...)
+					for _, ru := range name {
+						body = append(body, byte(ru), byte(ru>>8))
+					}
+					for len(body)%4 != 0 {
+						body = append(body, 0)
+					}
+					uniPackets = append(uniPackets, par2rw.Packet{SetID: rs.SetID, Type: t, Body: body})
+				}
+			}
+		}
 		// position actually obtained in the sorted id order
 		for i, rf := range rs.Files {
-			if rf.Name == name {
+			if rf.Name == name || (useUni && rf.Name == "benign-missing.bin") {
 				pos = i
 			}
 		}
@@ -157,6 +185,7 @@ func (c *c15) Run(cs core.Case) core.Result {
 		}
 		pk := append([]par2rw.Packet{rs.MainPacket()}, critical()[1:]...)
 		pk = append(pk, rs.CreatorPacket("ref"))
+		pk = append(pk, uniPackets...)
 		os.WriteFile(idx, par2rw.Serialize(pk), 0644)
 		nb := (len(evilData)+15)/16 + 1
 		if len(evilData) == 0 {
@@ -166,6 +195,7 @@ func (c *c15) Run(cs core.Case) core.Result {
 		}
 		vp := []par2rw.Packet{rs.CreatorPacket("ref")}
 		vp = append(vp, critical()...)
+		vp = append(vp, uniPackets...)
 		for e := 0; e < nb; e++ {
 			vp = append(vp, rs.RecvPacket(uint32(e)))
 		}
@@ -208,7 +238,15 @@ func (c *c15) Run(cs core.Case) core.Result {
 			}
 		}
 	}
-	if p.Mode == "lib" {
+	libIdx := idx
+	if p.Mode == "lib-bare" {
+		wd, _ := os.Getwd()
+		defer os.Chdir(wd)
+		os.Chdir(t.arch)
+		libIdx = filepath.Base(idx)
+	}
+	if p.Mode == "lib" || p.Mode == "lib-bare" {
+		idx := libIdx
 		var verr, rerr error
 		var pi *core.PanicInfo
 		if p.Fmt == "par2" {
@@ -238,7 +276,7 @@ func (c *c15) Run(cs core.Case) core.Result {
 		} else {
 			r.Count("repair_accepted", 1)
 		}
-		r.Sample(map[string]interface{}{"format": p.Fmt, "name": name, "position": pos, "files": nf, "mode": "lib", "verify_error": fmt.Sprint(verr), "repair_error": fmt.Sprint(rerr)})
+		r.Sample(map[string]interface{}{"format": p.Fmt, "name": name, "position": pos, "files": nf, "mode": p.Mode, "verify_error": fmt.Sprint(verr), "repair_error": fmt.Sprint(rerr)})
 	} else {
 		parExe := os.Getenv("VW_PAR_EXE")
 		if parExe == "" {
@@ -247,7 +285,11 @@ func (c *c15) Run(cs core.Case) core.Result {
 		}
 		for _, op := range []string{"v", "r"} {
 			// run from an unrelated cwd (the sibling) with an absolute index path
-			tr := mon.Trace(filepath.Join(t.work, "sibling"), []string{parExe, op, idx}, nil)
+			cwd, idxArg := filepath.Join(t.work, "sibling"), idx
+			if p.Mode == "cli-bare" {
+				cwd, idxArg = t.arch, filepath.Base(idx)
+			}
+			tr := mon.Trace(cwd, []string{parExe, op, idxArg}, nil)
 			if tr.Err != nil {
 				r.Inconclusive("strace: %v", tr.Err)
 				return r.Done()
@@ -271,7 +313,7 @@ func (c *c15) Run(cs core.Case) core.Result {
 			judgeSnap("cli-" + op)
 			r.Count("cli_runs", 1)
 		}
-		r.Sample(map[string]interface{}{"format": p.Fmt, "name": name, "position": pos, "files": nf, "mode": "cli+strace"})
+		r.Sample(map[string]interface{}{"format": p.Fmt, "name": name, "position": pos, "files": nf, "mode": p.Mode + "+strace"})
 	}
 	r.Key("%s|%q|pos=%d|%s|pre=%v", p.Fmt, name, pos, p.Mode, preexist)
 	return r.Done()
